@@ -275,9 +275,9 @@ def layoutStep (cfg : Config) (segIsLoad : Nat → Bool) (segAl : List (Nat × N
   | .section sid =>
     let s := secs sid
     let mem := match s.loc with | some a => a | none => c.mem
-    let (st, rs) := placeParts cfg s (sid == cfg.relroPad) (maxAlignment s)
+    let r := placeParts cfg s (sid == cfg.relroPad) (maxAlignment s)
       { file := c.file, mem := mem, nonalloc := 0, reloc := 0 } s.parts
-    ({ c with file := st.file, mem := st.mem }, some (sid, rs))
+    ({ c with file := r.1.file, mem := r.1.mem }, some (sid, r.2))
 
 def layoutWalk (cfg : Config) (segIsLoad : Nat → Bool) (segAl : List (Nat × Nat)) (secs : Nat → Sec) :
     Cursor → List Event → Cursor × List (Nat × List Rec)
